@@ -186,6 +186,27 @@ def verus_unit(plan):
             fns[fn] = "C06.emitter." + mname
         except AnchorLost as e:
             plan.anchor_errors.append(("C06.emitter." + mname, str(e)))
+    # ---- symbol section: entries written by CompileCtx::compile vs entries read by load_program_from_reader (F: the two length expressions)
+    prog = read_repo("src/core/src/program/program.rs")
+    m_w = re.search(r"let symbols_len\s*:\s*u64\s*=\s*\(self\.symbols\.len\(\) as u64\)\s*\*\s*(\d+)\s*;", ctx)
+    m_r = re.search(r"for _ in 0\.\.\(header\.symbols_len\s*/\s*(\d+)\)", prog)
+    if not m_w or not m_r:
+        plan.anchor_errors.append(("C06.symbols.count_roundtrip", "symbol section length expressions not found"))
+    else:
+        items.append("""
+// symbol section: `symbols_len = (self.symbols.len() as u64) * %(w)s` (CompileCtx::compile) and
+// `for _ in 0..(header.symbols_len / %(r)s)` (load_program_from_reader), each iteration reading one 13-byte entry
+fn symbols_section_len(n: u64) -> (r: u64) requires n as int * %(w)s <= u64::MAX as int, ensures r as int == n as int * %(w)s { n * %(w)s }
+fn symbols_entries_read(symbols_len: u64) -> (r: u64) ensures r as int == symbols_len as int / %(r)s { symbols_len / %(r)s }
+fn symbols_count_roundtrip(n: u64) -> (r: u64)
+  requires n as int * %(w)s <= u64::MAX as int,
+  ensures r == n,      // a program with n symbols is loaded with n symbols, for every n
+{
+  let len = symbols_section_len(n);
+  symbols_entries_read(len)
+}
+""" % dict(w=m_w.group(1), r=m_r.group(1)))
+        fns["symbols_count_roundtrip"] = "C06.symbols.count_roundtrip"
     items.append(verus_canary("canary_c06", "x: u64", []))
     text = "use vstd::prelude::*;\nuse std::collections::HashMap;\nverus! {\n" + "\n".join(items) + "\n} // verus!\nfn main() {}\n"
     u = VerusUnit("c06_emitters", text, fns, ["canary_c06"], dropped=[
@@ -196,6 +217,7 @@ def verus_unit(plan):
     what = {
         "alloc_register_for_ptr": "known address => its register, map unchanged; new address => next_reg, map extended by exactly that pair, next_reg + 1; invariant 'every register < next_reg' kept",
     }
+    what["symbols_count_roundtrip"] = "the loader iterates exactly as many symbol entries as the compiler wrote (n entries of 13 bytes => n iterations), for every n"
     for fn, on in fns.items():
         plan.ob(on, "verus", "proved", functions=[fn],
                 what=what.get(fn, "emits exactly the instruction(s) in operand order (out, arg1, arg2, ..): ConstLoad per operand cell then the op with dst/operands = registers of those cells; earlier instructions and existing register assignments unchanged" if "inst" in fn
@@ -218,6 +240,27 @@ def plan(plan, tier, seed):
         level, bound = ("bounded", "see harness") if ("string" in h or "symbols" in h or "matrix" in h) else ("proved", "")
         hmap[h] = plan.ob("C06." + h[len("vkc06_"):].replace("__", "."), "kani", level, bound=bound,
                           functions=["constants.rs ConstElem / symbol section"], what=h)
+    # ---- anchor pass: emitter argument order vs factory argument order, per struct template
+    from units import order_check
+    seen = set()
+    for rel, line, site, ok, detail, order, fmap in order_check.check(plan):
+        name = "C06.order.%s.%s" % (os.path.basename(os.path.dirname(rel)) + "/" + os.path.basename(rel), site)
+        k = 1
+        base = name
+        while name in seen:
+            k += 1
+            name = "%s#%d" % (base, k)
+        seen.add(name)
+        ob = plan.ob(name, "syntactic", "bounded", bound="source-text correspondence check, not a proof",
+                     functions=["%s:%d %s" % (rel, line, site)],
+                     what="compile_*op!(name, %s) passes the fields in the order in which new(FunctionArgs::*) reads them back" % ", ".join("self." + f for f in order))
+        if ok is True:
+            ob.status = "discharged"
+        elif ok is False:
+            ob.status, ob.detail = "violated", detail
+            ob.raw = "%s:%d: %s" % (rel, line, detail)
+        else:
+            ob.status, ob.detail = "undecided", detail
     plan.kani.append(dict(package="mech-core", filters=["vkc06_"], harness=hmap, timeout=3000, replay_entry="vkreplay_c06"))
     plan.functions += ["src/core/src/program/compiler/context.rs: CompileCtx::{alloc_register_for_ptr, emit_const_load, emit_nullop, emit_unop, emit_binop, emit_ternop, emit_quadop}",
                        "src/core/src/stdlib.rs: compile_register_brrw!, compile_nullop!, compile_unop!, compile_binop!, compile_ternop!, compile_quadop!",
